@@ -88,7 +88,12 @@ func (h *Heap[T]) GetValues() []T {
 	h.mu.RLock()
 	defer h.mu.RUnlock()
 
-	return h.data
+	// Hand out a copy: the backing array keeps being rewritten by Push, Pop,
+	// Delete and Convert under the lock, which the caller does not hold.
+	values := make([]T, len(h.data))
+	copy(values, h.data)
+
+	return values
 }
 
 // Push inserts new elements at the end of the heap and calls the heapify algorithm to reorder
